@@ -139,7 +139,7 @@ func c11Cases(env *fw.Env) []c11Case {
 		}
 	}
 	for _, a := range []bool{true, false} {
-		for _, st := range []string{"stall-t6", "stall-t7", "stall-t8", "stall-write-timeout", "stall-linktest"} {
+		for _, st := range []string{"stall-t6", "stall-t7", "stall-t8", "stall-write-timeout", "stall-linktest", "stall-linktest+local-sends"} {
 			if (st == "stall-t6" && !a) || (st == "stall-t7" && a) {
 				continue
 			}
@@ -191,7 +191,7 @@ func c11Cases(env *fw.Env) []c11Case {
 		// delays injected around teardown / publish / dispatch (the recovery machinery's own suspension points)
 		base := len(cs)
 		agnostic := map[string]bool{"cut-reading-lib-linktest-req": true, "cut-reading-lib-linktest-rsp": true, "cut-reading-lib-data-primary": true,
-			"cut-writing-peer-reply": true, "cut-writing-peer-primary": true, "stall-t8": true, "stall-write-timeout": true, "stall-linktest": true}
+			"cut-writing-peer-reply": true, "cut-writing-peer-primary": true, "stall-t8": true, "stall-write-timeout": true, "stall-linktest": true, "stall-linktest+local-sends": true}
 		for _, c := range cs[:base] {
 			if agnostic[c.Kind] {
 				c.Active = !c.Active
@@ -305,6 +305,9 @@ func c11One(env *fw.Env, cs c11Case) {
 		o.T8 = 150 * time.Millisecond
 	case "stall-write-timeout":
 		o.WriteTimeout = 200 * time.Millisecond
+	case "stall-linktest+local-sends":
+		on := true
+		o.Linktest, o.T6, o.LinktestFails, o.Suppress = 60*time.Millisecond, 100*time.Millisecond, 2, &on
 	case "stall-linktest":
 		off := false
 		o.Linktest, o.T6, o.LinktestFails, o.Suppress = 40*time.Millisecond, 100*time.Millisecond, 2, &off
@@ -365,7 +368,7 @@ func c11One(env *fw.Env, cs c11Case) {
 	}
 	defer pc.Close()
 	needSelected := map[string]bool{"cut-reading-lib-data-primary": true, "cut-writing-peer-reply": true, "cut-writing-peer-primary": true, "cut-reading-lib-linktest-req": true,
-		"cut-reading-lib-linktest-rsp": true, "stall-t8": true, "stall-write-timeout": true, "stall-linktest": true, "refused-dials": true, "failed-listens": true}
+		"cut-reading-lib-linktest-rsp": true, "stall-t8": true, "stall-write-timeout": true, "stall-linktest": true, "stall-linktest+local-sends": true, "refused-dials": true, "failed-listens": true}
 	if needSelected[cs.Kind] {
 		if err := rawSelect(rg, pc); err != nil {
 			env.Note("case %d (%s): setup select: %v", cs.Index, cs.Kind, err)
@@ -480,6 +483,38 @@ func c11One(env *fw.Env, cs c11Case) {
 		}()
 		if !waitFor(30*time.Second, func() bool { return rg.Conn.State() != hsms.SelectedState }) {
 			fail("stall-not-dropped-write-timeout", "128 MiB of writes to a peer that never reads (write timeout 200 ms) did not drop the link within 30 s")
+			return
+		}
+		env.Event("stall_cases", 1)
+	case "stall-linktest+local-sends":
+		// the peer is dead (reads, answers nothing) while the LOCAL application keeps writing one message after every
+		// probe timeout: its own writes are no sign of peer life (suppression on), the stall must still be detected
+		stopLocal := make(chan struct{})
+		bg.Add(1)
+		go func() {
+			defer bg.Done()
+			for {
+				f, err := rawReadFrame(pc, 15*time.Second)
+				if err != nil {
+					return
+				}
+				if f.PType == 0 && f.SType == peer.STLinktestReq {
+					select {
+					case <-stopLocal:
+						return
+					case <-time.After(o.T6 + 20*time.Millisecond):
+					}
+					ctx, cancel := context.WithTimeout(context.Background(), time.Second)
+					_, _ = rg.Conn.SendDataMessage(ctx, 6, 11, false, secs2.A("local traffic during the stall"))
+					cancel()
+					env.Event("local_sends_during_linktest_stall", 1)
+				}
+			}
+		}()
+		ok := waitFor(8*time.Second, func() bool { return rg.Conn.State() != hsms.SelectedState })
+		close(stopLocal)
+		if !ok {
+			fail("stall-not-dropped-linktest", "the peer answered no Linktest.req for 8 s (interval 60 ms, T6 100 ms, threshold 2, suppression on) while the local side wrote one message after every probe timeout, and the session is still Selected")
 			return
 		}
 		env.Event("stall_cases", 1)
